@@ -1326,6 +1326,453 @@ def r07_5(prog, rep, rid='R07.5'):
 
 
 # ------------------------------------------------------------------------------
+# R07.8  a thread that drains a shared list reads and resets it in ONE critical
+#        section of the lock the other threads add under
+#
+# `_to_watcher` (run-time limits) and `NOOP._collect` (tasks to finish) run as
+# threads of their own and take over what the intake thread / the control
+# handler have added to a list on self: read all entries, then re-bind the
+# attribute (to a fresh list / to what remains).  Whatever is added between the
+# read and the reset is wiped unread - that task's run-time limit is never
+# enforced resp. the task is never collected: it is left behind.  Necessary:
+# the writers add under a lock L, the reset lies inside a `with L` region and
+# on every path from the entry of that region to the reset the list was read
+# (or the reset statement itself reads it: swap / filter form).
+#
+LMBASE = ('agent/launch_method/base.py', 'LaunchMethod')
+
+_RESET_CALLS = ('clear',)
+
+
+def _self_attr(e):
+    """'X' for the expression `self.X`"""
+    if isinstance(e, ast.Attribute) and isinstance(e.value, ast.Name) and \
+            e.value.id == 'self':
+        return e.attr
+    return None
+
+
+def _is_full_slice(e):
+    return isinstance(e, ast.Subscript) and isinstance(e.slice, ast.Slice) \
+        and e.slice.lower is None and e.slice.upper is None
+
+
+def _thread_methods(K):
+    """methods of class K which are started as a thread of their own:
+    Thread(target=self.M) anywhere in K"""
+    out = []
+    for m in K.methods.values():
+        for c in calls_in(m.node, nested=True):
+            if call_name(c).split('.')[-1] not in ('Thread', 'Timer'):
+                continue
+            t = kwarg(c, 'target', pos=1)
+            if call_name(c).split('.')[-1] == 'Timer':
+                t = kwarg(c, 'function', pos=1)
+            a = _self_attr(t) if t is not None else None
+            if a and a in K.methods and a not in out:
+                out.append(a)
+    return out
+
+
+def _own_closure(K, name):
+    """names of the methods of K reached from K.name through self.<m>()"""
+    seen, todo = [], [name]
+    while todo:
+        n = todo.pop()
+        if n in seen:
+            continue
+        seen.append(n)
+        for c in calls_in(K.methods[n].node, nested=True):
+            a = _self_attr(c.func)
+            if a and a in K.methods:
+                todo.append(a)
+    return seen
+
+
+def _container_writes(f):
+    """[(attr X, 'reset' | 'add', ast node of the write, statement reads X)]
+    for the writes to a `self.X` in f: re-binding / clearing is a reset (a
+    re-binding whose value reads self.X is both: `self.X = self.X + [t]`),
+    in-place mutation an add"""
+    out = []
+    for kind, tgt, node in I.stores(f.node):
+        x = _self_attr(tgt)
+        if kind == 'assign' and x:
+            reads = any(_self_attr(n) == x and isinstance(n.ctx, ast.Load)
+                        for n in walk(node.value))
+            out.append((x, 'reset', node, reads))
+        elif kind == 'assign' and _is_full_slice(tgt) and \
+                _self_attr(tgt.value):
+            x = _self_attr(tgt.value)
+            reads = any(_self_attr(n) == x and isinstance(n.ctx, ast.Load)
+                        for n in walk(node.value))
+            out.append((x, 'reset', node, reads))
+        elif kind == 'del' and _is_full_slice(tgt) and _self_attr(tgt.value):
+            out.append((_self_attr(tgt.value), 'reset', node, False))
+        elif kind == 'mutate' and x and node.func.attr in _RESET_CALLS:
+            out.append((x, 'reset', node, False))
+        elif kind == 'mutate' and x:
+            out.append((x, 'add', node, False))
+        elif kind == 'aug' and x:
+            out.append((x, 'add', node, False))
+        elif kind in ('assign', 'aug', 'del') and \
+                isinstance(tgt, ast.Subscript) and _self_attr(tgt.value):
+            out.append((_self_attr(tgt.value), 'add', node, False))
+    return out
+
+
+def _locks_at(f, g, smap, node):
+    """[(with ast, 'self.L')] for the `with self.L` regions of f around the
+    ast node (innermost last); a local that only ever holds self.L counts"""
+    n = smap.get(id(node))
+    if n is None:
+        return None
+    once = _once_bound(f.node, f.params)
+    out = []
+    for w in n.withs:
+        for i in w.items:
+            e = _deref(i.context_expr, once)
+            if _self_attr(e):
+                out.append((w, 'self.' + _self_attr(e)))
+    return out
+
+
+def _caller_locks(K, prog, fname):
+    """the locks every call `self.fname(..)` in K and its subclasses is made
+    under (None: no call site, or one without any lock)"""
+    common = None
+    for cls in [K] + list(prog.subclasses(K)):
+        for m in cls.methods.values():
+            calls = [c for c in calls_in(m.node, nested=True)
+                     if _self_attr(c.func) == fname]
+            if not calls:
+                continue
+            g = cfg_of(m)
+            smap = I.stmt_node_map(g)
+            for c in calls:
+                ls = _locks_at(m, g, smap, c)
+                if not ls:
+                    return None
+                here = {l for w, l in ls}
+                common = here if common is None else common & here
+    return common or None
+
+
+def _drain_sites(prog, K):
+    """[(thread method, X, [(f, reset node, reads)], [(f, add node)])] for the
+    lists on self which a thread method of K resets while other methods of K
+    add to them"""
+    out = []
+    threads = _thread_methods(K)
+    if not threads:
+        raise AnalysisError('UNRECOGNISED-IDIOM %s: no method is started as '
+                            'Thread(target=self.<m>)' % K.where)
+    for tname in threads:
+        clo = _own_closure(K, tname)
+        resets, adds = {}, {}
+        for name, f in K.methods.items():
+            for x, kind, node, reads in _container_writes(f):
+                if name in clo and kind == 'reset':
+                    resets.setdefault(x, []).append((f, node, reads))
+                elif name not in clo and (kind == 'add' or reads):
+                    adds.setdefault(x, []).append((f, node))
+        for x in sorted(resets):
+            if x in adds:
+                out.append((K.methods[tname], x, resets[x], adds[x]))
+    return out
+
+
+def r07_8(prog, rep, rid='R07.8', classes=(EBASE, NOOP)):
+    rep.rule(rid, 'a list on self which a thread of the executor drains (read, '
+             'then reset) while other threads add to it: the adds are made '
+             'under one lock, and read and reset lie in one critical section '
+             'of that lock', minimum=4)
+    for anchor in classes:
+        K = prog.cls(*anchor)
+        sites = _drain_sites(prog, K)
+        if not sites:
+            raise AnalysisError('UNRECOGNISED-IDIOM %s: no list on self is '
+                                'reset by a thread method and added to by '
+                                'another method' % K.where)
+        for tm, x, resets, adds in sites:
+            cont = 'self.' + x
+            # (a) the writers: every add under a lock, all the same one
+            locks = {}
+            for f, node in adds:
+                rep.saw(f)
+                g = cfg_of(f)
+                ls = _locks_at(f, g, I.stmt_node_map(g), node)
+                if ls is None:
+                    raise AnalysisError('UNRECOGNISED-IDIOM %s: cannot place '
+                                        '`%s`' % (f.where, short(node, 40)))
+                held = {l for w, l in ls}
+                if not held:
+                    held = _caller_locks(K, prog, f.name) or set()
+                locks[(f.qual, id(node))] = held
+                rep.check(bool(held), rid, f, '%s: `%s` is executed under a '
+                          'lock (%s)' % (f.qual, short(node, 40),
+                                         ', '.join(sorted(held))),
+                          construct='%s:add-unlocked' % cont,
+                          message='%s: `%s` adds to %s without holding a lock, '
+                          'while the thread %s reads and then resets that list '
+                          'under its lock: an entry added between the read and '
+                          'the reset is wiped unread' % (
+                              f.qual, short(node, 50), cont, tm.qual),
+                          loc=f.loc(node),
+                          history='%s runs while %s is between its loop over '
+                          '%s and the reset: the entry (run-time limit / task '
+                          'to collect) is lost, the task is left behind'
+                          % (f.qual, tm.qual, cont))
+            common = None
+            for held in locks.values():
+                if held:
+                    common = set(held) if common is None else common & held
+            if common is None:
+                continue            # reported above: no add holds any lock
+            if not common:
+                f, node = adds[0]
+                rep.bad(rid, K, '%s:add-locks-differ' % cont,
+                        '%s: the methods adding to %s do not hold a common '
+                        'lock (%s): no lock the draining thread %s could take '
+                        'excludes all of them' % (
+                            K.name, cont, sorted(sorted(h) for h in
+                                                 locks.values()), tm.qual),
+                        f.loc(node),
+                        history='an add under the other lock runs between '
+                        'read and reset of %s: the entry is wiped unread'
+                        % tm.qual)
+                continue
+            # (b) the drain: reset inside `with L`, read before it in there
+            for f, node, selfread in resets:
+                rep.saw(f)
+                g = cfg_of(f)
+                smap = I.stmt_node_map(g)
+                wn = smap.get(id(node))
+                ls = _locks_at(f, g, smap, node)
+                if wn is None or ls is None:
+                    raise AnalysisError('UNRECOGNISED-IDIOM %s: cannot place '
+                                        '`%s`' % (f.where, short(node, 40)))
+                mine = [w for w, l in ls if l in common]
+                if not mine and f is not tm:
+                    raise AnalysisError(
+                        'UNRECOGNISED-IDIOM %s: %s is reset in a helper of the '
+                        'thread method %s outside of any `with %s`: whether '
+                        'the caller holds the lock and has read the list is '
+                        'not decided here' % (f.where, cont, tm.qual,
+                                              sorted(common)[0]))
+                lock = sorted(common)[0]
+                if not mine:
+                    other = sorted({l for w, l in ls})
+                    rep.bad(rid, f, '%s:reset-outside-lock' % cont,
+                            '%s: `%s` is executed %s, but %s add(s) to %s '
+                            'under %s: what is added after this thread has '
+                            'read the list (and released the lock) and before '
+                            'the reset is wiped without ever having been read'
+                            % (f.qual, short(node, 50),
+                               'under %s' % other[0] if other else
+                               'outside of any critical section',
+                               ', '.join(sorted({a.qual for a, n in adds})),
+                               cont, lock), f.loc(node),
+                            history='%s leaves `with %s` after its loop over '
+                            '%s -> %s appends an entry -> the reset discards '
+                            'it: the run-time limit of that task is never '
+                            'enforced / the task is never collected, it is '
+                            'never handed on and its slots are never released'
+                            % (tm.qual, lock, cont, adds[0][0].qual))
+                    continue
+                w = mine[-1]
+                wnode = [n for n in g.nodes if n.kind == 'with' and
+                         n.ast is w][0]
+                reads = set()
+                for a in walk(f.node):
+                    if _self_attr(a) == x and isinstance(a.ctx, ast.Load):
+                        rn = smap.get(id(a))
+                        if rn is not None and rn.id != wn.id and \
+                                w in rn.withs:
+                            reads.add(rn.id)
+                okay = selfread or (bool(reads) and
+                                    must_pass(g, wnode.id, wn.id, reads))
+                rep.check(okay, rid, f, '%s: `%s` under %s is preceded by a '
+                          'read of %s in the same critical section on every '
+                          'path' % (f.qual, short(node, 40), lock, cont),
+                          construct='%s:reset-without-read' % cont,
+                          message='%s: `%s` is reached inside `with %s` '
+                          'without %s having been read in that critical '
+                          'section (the read happens outside of it or in '
+                          'another one): entries added by %s since the read '
+                          'are wiped unread' % (
+                              f.qual, short(node, 50), lock, cont,
+                              ', '.join(sorted({a.qual for a, n in adds}))),
+                          loc=f.loc(node),
+                          history='%s reads %s, releases %s; %s appends an '
+                          'entry; %s takes the lock again and resets the '
+                          'list: the task behind that entry is left behind'
+                          % (tm.qual, cont, lock, adds[0][0].qual, tm.qual))
+
+
+# ------------------------------------------------------------------------------
+# R07.9  the launcher's cancel escalates to the signal that cannot be ignored
+#
+# Popen.cancel_task first takes the task out of the registry (the watcher will
+# not finish it any more), asks the launcher to kill the process and then
+# waits for the process WITHOUT a time limit before it publishes / hands on.
+# A process that blocks or ignores the catchable signals therefore has to
+# receive SIGKILL, or cancel_task never returns: the task is left behind and
+# the calling thread (control handler, timeout watcher, intake) is stuck.
+#
+_SIGNUM = {9: 'SIGKILL', 15: 'SIGTERM', 2: 'SIGINT', 1: 'SIGHUP',
+           3: 'SIGQUIT', 0: '0'}
+_SEND = {'os.killpg': 1, 'os.kill': 1}
+
+
+def _signal_name(e, once):
+    e = _deref(e, once)
+    if isinstance(e, ast.Attribute) and e.attr.startswith('SIG') and \
+            dotted(e.value).split('.')[-1] in ('signal', 'Signals'):
+        return e.attr
+    if isinstance(e, ast.Name) and e.id.startswith('SIG') and e.id.isupper():
+        return e.id
+    if isinstance(e, ast.Constant) and type(e.value) is int:
+        return _SIGNUM.get(e.value, str(e.value))
+    return None
+
+
+_NORMAL = {'next', 'T', 'F', 'iter', 'done'}
+
+
+def _loop_signals(f, g, node, e, once):
+    """the signals `for v in (<signal>, ...)` sends through a kill(.., v) in
+    its body, provided every normal iteration passes that kill and the loop
+    is left on normal paths only when it is exhausted (an OSError of the kill
+    - process gone - may leave it); None if e is not such a loop variable"""
+    if not isinstance(e, ast.Name):
+        return None
+    nstores = sum(1 for n in walk(f.node) if isinstance(n, ast.Name) and
+                  n.id == e.id and isinstance(n.ctx, (ast.Store, ast.Del)))
+    for hid in reversed(node.loops):
+        h = g.nodes[hid]
+        if h.kind != 'for' or not isinstance(h.ast.target, ast.Name) or \
+                h.ast.target.id != e.id or nstores != 1 or \
+                not isinstance(h.ast.iter, (ast.Tuple, ast.List)):
+            continue
+        names = [_signal_name(x, once) for x in h.ast.iter.elts]
+        if not names or None in names:
+            return None
+        first = [x.dst for x in g.succ[hid] if x.label == 'iter']
+        if hid in g.reachable(first, skip_nodes={node.id}, labels=_NORMAL):
+            return None         # an iteration that does not send
+        body = g.loop_body[hid] | {hid}
+        if g.reachable(first, skip_nodes={hid}, labels=_NORMAL) - body:
+            return None         # the loop is left early on a normal path
+        return names
+    return None
+
+
+def _untimed_waits(f):
+    return [c for c in calls_in(f.node)
+            if isinstance(c.func, ast.Attribute) and c.func.attr == 'wait'
+            and not c.args and kwarg(c, 'timeout') is None]
+
+
+def r07_9(prog, rep, rid='R07.9'):
+    rep.rule(rid, 'cancel_task waits for the process without time limit after '
+             'the launcher\'s cancel: every launcher cancel_task(task, pid) '
+             'which signals the process ends, on every normal path, with the '
+             'signal that cannot be caught or ignored (SIGKILL)', minimum=2)
+    fc = prog.method(POPEN[0], POPEN[1], 'cancel_task')
+    rep.saw(fc)
+    gc = cfg_of(fc)
+    smap = I.stmt_node_map(gc)
+    lcalls = [c for c in calls_in(fc.node)
+              if isinstance(c.func, ast.Attribute) and
+              c.func.attr == 'cancel_task' and _self_attr(c.func) is None
+              and len(c.args) + len(c.keywords) == 2]
+    if not lcalls:
+        raise AnalysisError('UNRECOGNISED-IDIOM %s: no call of the '
+                            'launcher\'s cancel_task(task, pid)' % fc.where)
+    waits = [c for c in _untimed_waits(fc)
+             if any(smap[id(c)].id in gc.reachable(smap[id(l)].id)
+                    for l in lcalls)]
+    if not waits:
+        raise AnalysisError('UNRECOGNISED-IDIOM %s: no wait() without time '
+                            'limit follows the launcher\'s cancel_task: '
+                            'whether the cancel path can block is not decided'
+                            % fc.where)
+    lm = prog.cls(*LMBASE)
+    impls = []
+    for cls in [lm] + list(prog.subclasses(lm)):
+        f = cls.methods.get('cancel_task')
+        if f is not None and len([p for p in f.params if p != 'self']) == 2 \
+                and f not in impls:
+            impls.append(f)
+    if not impls:
+        raise AnalysisError('UNRECOGNISED-IDIOM %s: no cancel_task(task, pid)'
+                            % lm.where)
+    for f in impls:
+        rep.saw(f)
+        g = cfg_of(f)
+        fsmap = I.stmt_node_map(g)
+        once = _once_bound(f.node, f.params)
+        sends = []
+        for n in g.nodes:
+            # (a finally body exists once per way of entering it: every copy
+            # of the statement is a send)
+            if n.ast is None or n.kind in ('while', 'dispatch', 'handler'):
+                continue
+            for c in I.stmt_calls(n):
+                if call_name(c) not in _SEND:
+                    continue
+                s = kwarg(c, 'sig', pos=_SEND[call_name(c)]) or \
+                    kwarg(c, 'signal')
+                name = _signal_name(s, once) if s is not None else None
+                if name is None and s is not None:
+                    names = _loop_signals(f, g, n, s, once)
+                    if names is not None:
+                        name = 'SIGKILL' if 'SIGKILL' in names else names[-1]
+                if name is None:
+                    raise AnalysisError(
+                        'UNRECOGNISED-IDIOM %s: which signal `%s` sends is '
+                        'not a constant here' % (f.where, short(c, 50)))
+                sends.append((n.id, name, c))
+        sends.sort(key=lambda t: (t[2].lineno, t[2].col_offset, t[0]))
+        if not sends:
+            raise AnalysisError('UNRECOGNISED-IDIOM %s: no os.kill / '
+                                'os.killpg' % f.where)
+        kills = {nid for nid, name, c in sends if name == 'SIGKILL'}
+        weak = [(nid, name, c) for nid, name, c in sends
+                if name not in ('SIGKILL', '0')]
+        bad = None
+        for nid, name, c in weak:
+            if nid in kills:
+                continue
+            # normal continuations only: an OSError of kill / killpg means
+            # the process (group) is gone already
+            if not must_pass(g, nid, g.exit.id, kills, skip_exc=True):
+                bad = (name, c)
+        label = '%s.%s' % (f.cls.name if f.cls else '', f.name)
+        if bad:
+            name, c = bad
+            rep.bad(rid, f, 'no-sigkill-after:%s' % name,
+                    '%s: after `%s` a normal return is reached without '
+                    'SIGKILL being sent (signals sent: %s). %s can be caught, '
+                    'blocked or ignored by the task; Popen.cancel_task has '
+                    'removed the uid from the registry before and then blocks '
+                    'in `%s` until the process ends: it never publishes the '
+                    'unschedule request nor hands the task on'
+                    % (label, short(c, 50),
+                       ', '.join(n for i, n, x in sends), name,
+                       short(waits[0], 30)), f.loc(c),
+                    history="cancel request or run-time limit for a task "
+                    "whose process ignores %s (sh -c 'trap \"\" TERM; ...'): "
+                    "the process survives, cancel_task never returns - no "
+                    "hand-on, no release, the calling thread is stuck" % name)
+        else:
+            rep.ok(rid, f, '%s: every normal path after a catchable signal '
+                   'sends SIGKILL (%s)' % (label, ', '.join(
+                       n for i, n, x in sends)), f.loc())
+
+
+# ------------------------------------------------------------------------------
 #
 def run(prog, rep, tier):
     rep.decided = ('on every path of cancel_task, of one watcher iteration + '
@@ -1340,7 +1787,10 @@ def run(prog, rep, tier):
         'queue the watcher drains; after the removal from the registry '
         'every normal way out of cancel_task / of the watcher iteration '
         'finishes / collects the task; the timeout watcher goes through '
-        'cancel_task.')
+        'cancel_task; the lists the timeout watcher and the NOOP collector '
+        'drain are added to under one lock and read + reset in one critical '
+        'section of it; every launcher cancel_task(task, pid) escalates to '
+        'SIGKILL before cancel_task waits for the process.')
     rep.undecided = ('real thread schedules (the argument is lock discipline '
         'plus single removal); Flux and Dragon executors are out of scope.')
     rep.assumptions = [
@@ -1356,6 +1806,8 @@ def run(prog, rep, tier):
     rep.attempt(r07_5, prog, rep)
     rep.attempt(r07_6, prog, rep)
     rep.attempt(r07_7, prog, rep)
+    rep.attempt(r07_8, prog, rep)
+    rep.attempt(r07_9, prog, rep)
 
 
 # ------------------------------------------------------------------------------
@@ -1368,6 +1820,18 @@ _TAIL = "        self.handle_timeout(task)\n\n        # watch task for completio
 _KILL = "        launcher = self._rm.get_launcher(task['launcher_name'])\n        launcher.cancel_task(task, proc.pid)\n"
 _LOCKC = '        with self._check_lock:\n            if tid not in self._tasks:\n                return\n'
 _APP = "                tasks_to_advance.append(task)\n\n                self._prof.prof('unschedule_start', uid=tid)\n"
+
+_L = 'agent/launch_method/base.py'
+_S = 'agent/launch_method/srun.py'
+_TOLOOP = "                for task, cancel_time, has_started in self._to_tasks:\n                    self._log.debug('to_watcher: %s, cancel_time=%s, has_started=%s',\n                                    task['uid'], cancel_time, has_started)\n                    tid = task['uid']\n                    if has_started or tid not in to_tasks:\n                        to_tasks[task['uid']] = [task, cancel_time]\n"
+_TORESET = "                self._to_tasks = list()\n"
+_TOADD = "            with self._to_lock:\n                cancel_time = time.time() + (startup_to or exec_to)\n                has_started = not bool(startup_to)\n                self._to_tasks.append([task, cancel_time, has_started])\n"
+_TOADD2 = "                with self._to_lock:\n                    self._to_tasks.append([task, cancel_time, True])\n"
+_NLOOP = "                for task in self._tasks:\n                    if task['deadline'] <= now: to_finish.append(task)\n                    else                      : to_continue.append(task)\n"
+_NRESET = "                self._tasks = to_continue\n"
+_NADD = "        with self._tasks_lock:\n            self._tasks.extend(to_collect)\n"
+_KILL2 = "            try:\n                time.sleep(0.1)\n                os.killpg(pid, signal.SIGKILL)\n            except OSError:\n                pass\n"
+_LMBODY = "        try:\n            self._log.debug('killing task %s (%d)', task['uid'], pid)\n            os.killpg(pid, signal.SIGTERM)\n\n            # also send a SIGKILL to drive the message home.\n            # NOTE: the `sleep` will limit the cancel throughput!\n            try:\n                time.sleep(0.1)\n                os.killpg(pid, signal.SIGKILL)\n            except OSError:\n                pass\n\n        except OSError:\n            # lost race: task is already gone, we ignore this\n            self._log.debug('task already gone: %s', task['uid'])\n"
 
 MUTATIONS = [
     dict(name='R07.1 cancel_task does not unschedule', rules=('R07.1',), edits=[
@@ -1463,6 +1927,30 @@ MUTATIONS = [
         (_P, "    def cancel_task(self, task):\n", "    def _disown_task(self, tid):\n        if True:\n            if tid not in self._tasks:\n                return False\n            try:\n                self._log.debug('disown %s', tid)\n                del self._tasks[tid]\n            except KeyError:\n                pass\n            return True\n\n    def cancel_task(self, task):\n"),
         (_P, "        with self._check_lock:\n            if tid not in self._tasks:\n                return\n            try:\n                del self._tasks[tid]\n            except KeyError:\n                pass\n", "        if not self._disown_task(tid):\n            return\n"),
         (_P, "                with self._check_lock:\n                    if tid not in self._tasks:\n                        # task was canceled before, nothing to do\n                        continue\n                    try:\n                        del self._tasks[tid]\n                    except KeyError:\n                        pass\n", "                if not self._disown_task(tid):\n                    continue\n")]),
+    dict(name='R07.8 timeout registrations reset outside of the lock (C07-g4)', rules=('R07.8',), edits=[
+        (_E, _TORESET, "            self._to_tasks = list()\n")]),
+    dict(name='R07.8 NOOP collector re-binds its task list outside of the lock (C03-g6)', rules=('R07.8',), edits=[
+        (_N, _NRESET, "            self._tasks = to_continue\n")]),
+    dict(name='R07.8 timeout registrations read in one critical section, reset in a second one', rules=('R07.8',), edits=[
+        (_E, _TORESET, "            with self._to_lock:\n                self._to_tasks = list()\n")]),
+    dict(name='R07.8 timeout registrations cleared in place after the lock is released', rules=('R07.8',), edits=[
+        (_E, _TORESET, "            del self._to_tasks[:]\n")]),
+    dict(name='R07.8 timeout registrations read before the lock is taken', rules=('R07.8',), edits=[
+        (_E, "            with self._to_lock:\n\n" + _TOLOOP + "\n" + _TORESET, "            if True:\n\n" + _TOLOOP + "\n            with self._to_lock:\n                self._to_tasks = list()\n")]),
+    dict(name='R07.8 handle_timeout registers without the lock', rules=('R07.8',), edits=[
+        (_E, _TOADD, "            if True:\n                cancel_time = time.time() + (startup_to or exec_to)\n                has_started = not bool(startup_to)\n                self._to_tasks.append([task, cancel_time, has_started])\n")]),
+    dict(name='R07.8 NOOP.work hands the bulk to the collector without the lock', rules=('R07.8',), edits=[
+        (_N, _NADD, "        self._tasks.extend(to_collect)\n")]),
+    dict(name='R07.8 NOOP collector: snapshot under the lock, list re-bound later under the lock again', rules=('R07.8',), edits=[
+        (_N, "            with self._tasks_lock:\n\n" + _NLOOP + "\n" + _NRESET, "            with self._tasks_lock:\n                current = list(self._tasks)\n\n            for task in current:\n                if task['deadline'] <= now: to_finish.append(task)\n                else                      : to_continue.append(task)\n\n            with self._tasks_lock:\n                self._tasks = to_continue\n")]),
+    dict(name='R07.9 the launcher never sends SIGKILL (C07-g6)', rules=('R07.9',), edits=[
+        (_L, "                os.killpg(pid, signal.SIGKILL)\n", "                os.killpg(pid, signal.SIGTERM)\n")]),
+    dict(name='R07.9 srun launcher: third signal is SIGINT again', rules=('R07.9',), edits=[
+        (_S, "                os.killpg(pid, signal.SIGKILL)\n", "                os.killpg(pid, signal.SIGINT)\n")]),
+    dict(name='R07.9 escalation removed: SIGTERM only', rules=('R07.9',), edits=[
+        (_L, _KILL2, "")]),
+    dict(name='R07.9 SIGKILL only when SIGTERM could not be delivered', rules=('R07.9',), edits=[
+        (_L, _LMBODY, "        try:\n            self._log.debug('killing task %s (%d)', task['uid'], pid)\n            os.killpg(pid, signal.SIGTERM)\n\n        except OSError:\n            try:\n                time.sleep(0.1)\n                os.killpg(pid, signal.SIGKILL)\n            except OSError:\n                pass\n")]),
     dict(name='R07.5 timeout watcher finishes the task itself', rules=('R07.5',), edits=[
         (_E, "                        self.cancel_task(task=task)\n", "                        self.publish(rpc.AGENT_UNSCHEDULE_PUBSUB, task)\n                        self.advance(task, rps.CANCELED, publish=True, push=False)\n")]),
 ]
@@ -1528,6 +2016,33 @@ SILENT = [
         (_P, "    def cancel_task(self, task):\n", "    def _is_gone(self, tid):\n        with self._check_lock:\n            if tid in self._tasks:\n                self._tasks.pop(tid)\n                return False\n        return True\n\n    def cancel_task(self, task):\n"),
         (_P, "        with self._check_lock:\n            if tid not in self._tasks:\n                return\n            try:\n                del self._tasks[tid]\n            except KeyError:\n                pass\n", "        if self._is_gone(tid):\n            return\n"),
         (_P, "                with self._check_lock:\n                    if tid not in self._tasks:\n                        # task was canceled before, nothing to do\n                        continue\n                    try:\n                        del self._tasks[tid]\n                    except KeyError:\n                        pass\n", "                gone = self._is_gone(tid)\n                if gone:\n                    continue\n")]),
+    dict(name='timeout registrations swapped out under the lock, walked outside of it', edits=[
+        (_E, "            with self._to_lock:\n\n" + _TOLOOP + "\n" + _TORESET, "            with self._to_lock:\n                pending = self._to_tasks\n                self._to_tasks = list()\n\n            if True:\n" + _TOLOOP.replace('in self._to_tasks:', 'in pending:'))]),
+    dict(name='timeout registrations: tuple swap under the lock', edits=[
+        (_E, "            with self._to_lock:\n\n" + _TOLOOP + "\n" + _TORESET, "            with self._to_lock:\n                pending, self._to_tasks = self._to_tasks, list()\n\n            if True:\n" + _TOLOOP.replace('in self._to_tasks:', 'in pending:'))]),
+    dict(name='timeout registrations: copy then clear in place, lock held in a local', edits=[
+        (_E, "            with self._to_lock:\n\n" + _TOLOOP + "\n" + _TORESET, "            lock = self._to_lock\n            with lock:\n                new = list(self._to_tasks)\n                self._log.debug('to_watcher: %d new', len(new))\n                del self._to_tasks[:]\n\n            if True:\n" + _TOLOOP.replace('in self._to_tasks:', 'in new:'))]),
+    dict(name='timeout registration in a helper that takes the lock itself', edits=[
+        (_E, _TOADD, "            cancel_time = time.time() + (startup_to or exec_to)\n            has_started = not bool(startup_to)\n            self._watch_timeout(task, cancel_time, has_started)\n\n    def _watch_timeout(self, task, cancel_time, has_started):\n        with self._to_lock:\n            self._to_tasks.append([task, cancel_time, has_started])\n"),
+        (_E, _TOADD2, "                self._watch_timeout(task, cancel_time, True)\n")]),
+    dict(name='timeout registration in a helper called with the lock held', edits=[
+        (_E, _TOADD, "            with self._to_lock:\n                cancel_time = time.time() + (startup_to or exec_to)\n                has_started = not bool(startup_to)\n                self._watch_timeout([task, cancel_time, has_started])\n\n    def _watch_timeout(self, entry):\n        # caller holds self._to_lock\n        self._to_tasks.append(entry)\n"),
+        (_E, _TOADD2, "                with self._to_lock:\n                    self._watch_timeout([task, cancel_time, True])\n")]),
+    dict(name='timeout watcher: the drain in a method of its own', edits=[
+        (_E, "            with self._to_lock:\n\n" + _TOLOOP + "\n" + _TORESET, "            self._take_registrations(to_tasks)\n"),
+        (_E, "    def handle_timeout(self, task):\n", "    def _take_registrations(self, to_tasks):\n        with self._to_lock:\n            for task, cancel_time, has_started in self._to_tasks:\n                tid = task['uid']\n                if has_started or tid not in to_tasks:\n                    to_tasks[tid] = [task, cancel_time]\n            self._to_tasks = list()\n\n    def handle_timeout(self, task):\n")]),
+    dict(name='NOOP collector: what remains is filtered in one statement under the lock', edits=[
+        (_N, "            with self._tasks_lock:\n\n" + _NLOOP + "\n" + _NRESET, "            with self._tasks_lock:\n                for task in self._tasks:\n                    if task['deadline'] <= now:\n                        to_finish.append(task)\n                self._tasks = [t for t in self._tasks if t['deadline'] > now]\n")]),
+    dict(name='NOOP collector: list re-bound first, the old one sorted afterwards, still under the lock', edits=[
+        (_N, "            with self._tasks_lock:\n\n" + _NLOOP + "\n" + _NRESET, "            with self._tasks_lock:\n                current     = self._tasks\n                self._tasks = to_continue\n                for task in current:\n                    if task['deadline'] <= now: to_finish.append(task)\n                    else                      : to_continue.append(task)\n")]),
+    dict(name='launcher: SIGTERM attempt returns when the group is gone, SIGKILL afterwards (C07-r4)', edits=[
+        (_L, _LMBODY, "        try:\n            self._log.debug('killing task %s (%d)', task['uid'], pid)\n            os.killpg(pid, signal.SIGTERM)\n\n        except OSError:\n            self._log.debug('task already gone: %s', task['uid'])\n            return\n\n        try:\n            time.sleep(0.1)\n            os.killpg(pid, signal.SIGKILL)\n        except OSError:\n            pass\n")]),
+    dict(name='launcher: the signals held in locals', edits=[
+        (_L, _LMBODY, "        soft = signal.SIGTERM\n        hard = signal.SIGKILL\n        try:\n            self._log.debug('killing task %s (%d)', task['uid'], pid)\n            os.killpg(pid, soft)\n            time.sleep(0.1)\n            os.killpg(pid, hard)\n\n        except OSError:\n            self._log.debug('task already gone: %s', task['uid'])\n")]),
+    dict(name='launcher: SIGKILL in a finally clause', edits=[
+        (_L, _LMBODY, "        try:\n            try:\n                self._log.debug('killing task %s (%d)', task['uid'], pid)\n                os.killpg(pid, signal.SIGTERM)\n                time.sleep(0.1)\n            finally:\n                os.killpg(pid, signal.SIGKILL)\n\n        except OSError:\n            self._log.debug('task already gone: %s', task['uid'])\n")]),
+    dict(name='launcher: one loop over the signals to send', edits=[
+        (_L, _LMBODY, "        self._log.debug('killing task %s (%d)', task['uid'], pid)\n        for sig in (signal.SIGTERM, signal.SIGKILL):\n            try:\n                os.killpg(pid, sig)\n                time.sleep(0.1)\n            except OSError:\n                self._log.debug('task already gone: %s', task['uid'])\n                break\n")]),
     dict(name='atomic pop with a sentinel default', edits=[
         (_P, "        with self._check_lock:\n            if tid not in self._tasks:\n                return\n            try:\n                del self._tasks[tid]\n            except KeyError:\n                pass\n", "        with self._check_lock:\n            if self._tasks.pop(tid, _pids) is _pids:\n                return\n"),
         (_P, "                with self._check_lock:\n                    if tid not in self._tasks:\n                        # task was canceled before, nothing to do\n                        continue\n                    try:\n                        del self._tasks[tid]\n                    except KeyError:\n                        pass\n", "                with self._check_lock:\n                    mine = self._tasks.pop(tid, _pids)\n                    if mine is _pids:\n                        continue\n")]),
